@@ -42,11 +42,16 @@ pub struct StreamState {
 
 static CALLBACK_ACTIVE: AtomicBool = AtomicBool::new(false);
 static TOTAL_LOOPS: AtomicU64 = AtomicU64::new(0);
+static TOTAL_PUSHED: AtomicU64 = AtomicU64::new(0);
+static CAPTURE: AtomicBool = AtomicBool::new(false);
+static PUSH_LOG: Mutex<Option<HashMap<usize, Vec<usize>>>> = Mutex::new(None);
 static REG: Mutex<Option<HashMap<usize, StreamState>>> = Mutex::new(None);
 static INSTALL: Once = Once::new();
 
 static EPOCH: AtomicU64 = AtomicU64::new(1);
 static REG_COUNTER: AtomicU64 = AtomicU64::new(1);
+/// step budget given to decoder threads when they are first seen (u64::MAX = unlimited)
+static DEFAULT_BUDGET: AtomicU64 = AtomicU64::new(u64::MAX);
 /// incremented whenever a callback ends: a decoder is quiescent only if it reported a full ring
 /// (or an exhausted budget) after the last callback ended
 static ROUND: AtomicU64 = AtomicU64::new(1);
@@ -68,6 +73,10 @@ fn entry<'a>(r: &'a mut HashMap<usize, StreamState>, id: usize) -> &'a mut Strea
 			thread: t,
 			epoch: EPOCH.load(Ordering::SeqCst),
 			reg: REG_COUNTER.fetch_add(1, Ordering::SeqCst) + 1,
+			budget: match DEFAULT_BUDGET.load(Ordering::SeqCst) {
+				u64::MAX => None,
+				b => Some(b),
+			},
 			..Default::default()
 		};
 	}
@@ -82,7 +91,7 @@ fn with_reg<R>(f: impl FnOnce(&mut HashMap<usize, StreamState>) -> R) -> R {
 
 pub fn install() {
 	INSTALL.call_once(|| {
-		kira::verif::set_hook(Some(Arc::new(|site, id, _b| match site {
+		kira::verif::set_hook(Some(Arc::new(|site, id, b| match site {
 			"clock_load_ticks" | "clock_load_fraction" | "clock_store_ticks" | "clock_store_fraction" => super::clocksched::on_hook(site),
 			"decode_loop" => {
 				TOTAL_LOOPS.fetch_add(1, Ordering::Relaxed);
@@ -125,6 +134,11 @@ pub fn install() {
 				});
 			}
 			"decode_pushed" => with_reg(|r| {
+				TOTAL_PUSHED.fetch_add(1, Ordering::Relaxed);
+				if CAPTURE.load(Ordering::SeqCst) {
+					let mut g = PUSH_LOG.lock().unwrap_or_else(|e| e.into_inner());
+					g.get_or_insert_with(HashMap::new).entry(id).or_default().push(b);
+				}
 				let st = entry(r, id);
 				st.pushed += 1;
 				st.full = false;
@@ -176,6 +190,23 @@ pub fn adopt(id: usize, mark: u64) {
 	}
 }
 
+/// budget for decoder threads that have not been seen yet (None = unlimited)
+pub fn set_default_budget(b: Option<u64>) {
+	DEFAULT_BUDGET.store(b.unwrap_or(u64::MAX), Ordering::SeqCst);
+}
+
+/// adds steps to a stream's budget
+pub fn grant(id: usize, steps: u64) {
+	with_reg(|r| {
+		let st = r.entry(id).or_default();
+		st.budget = Some(st.budget.unwrap_or(0).saturating_add(steps));
+		// (the thread reports itself parked again once these steps are used up)
+		if steps > 0 {
+			st.parked = false;
+		}
+	});
+}
+
 pub fn forget(id: usize) {
 	with_reg(|r| {
 		r.remove(&id);
@@ -195,6 +226,13 @@ pub fn abandon_all() {
 
 pub fn total_loops() -> u64 {
 	TOTAL_LOOPS.load(Ordering::Relaxed)
+}
+
+/// decode-loop iterations of all threads that did not deliver a frame
+pub fn total_idle_loops() -> u64 {
+	// (read pushes first: an iteration in flight is then counted as idle at worst once per thread)
+	let p = TOTAL_PUSHED.load(Ordering::SeqCst);
+	TOTAL_LOOPS.load(Ordering::SeqCst).saturating_sub(p)
 }
 
 /// Waits until every given stream is quiescent: decoder dropped, ring full, or parked on an
@@ -217,4 +255,16 @@ pub fn wait_quiescent(streams: &[(usize, Arc<DecoderLog>)], timeout: Duration) -
 		}
 		std::thread::sleep(Duration::from_micros(50));
 	}
+}
+
+/// record the source index of every frame a decoder delivers (C07)
+pub fn capture_pushes(on: bool) {
+	CAPTURE.store(on, Ordering::SeqCst);
+	let mut g = PUSH_LOG.lock().unwrap_or_else(|e| e.into_inner());
+	*g = None;
+}
+
+pub fn take_pushes(id: usize) -> Vec<usize> {
+	let mut g = PUSH_LOG.lock().unwrap_or_else(|e| e.into_inner());
+	g.get_or_insert_with(HashMap::new).remove(&id).unwrap_or_default()
 }
